@@ -218,6 +218,13 @@ def run(tier, seed):
     states += ca["states"]
     trans += ca["transitions"]
     n_rep += ca["replayed"]
+    # test-time search (ActiveSearch, EAS): replica -> instance index algebra, data-set offsets of the result buffers (Search.tla)
+    from . import c15b_search
+    vs, cs = c15b_search.violations(tier, seed)
+    viol += [v for v in vs if v["property"] == "C12"]
+    states += cs["states"]
+    trans += cs["transitions"]
+    n_rep += cs["replayed"]
     n_new, n_known = verdict.report("C12", viol)
     from . import unbounded
     unb = unbounded.for_property("C12", tier)      # Apalache / TLAPS: the index algebra for ALL batch sizes, depths, factors, K
@@ -227,6 +234,7 @@ def run(tier, seed):
            "replayed_model_states": n_rep, "known_finding_witnesses": n_known,
            "tlc_action_coverage": r1.coverage(), "unbounded": unb,
            "ant_colony_search": {k: v for k, v in ca.items() if k != "samples"},
+           "test_time_search": {k: v for k, v in cs.items() if k != "samples"},
            "explanation": "Layout.tla model-checked; terminal states replayed into batchify/unbatchify/_select_best; "
                           "select_start_nodes of real envs validated by LayoutTrace.tla; the index algebra is lifted to all batch "
                           "sizes / nesting depths / factors / K by Apalache inductive invariants (MC_Layout_apa.tla) and TLAPS "
